@@ -128,8 +128,9 @@ func latencyFunc(l LatencyCfg, w *simrt.World) func(op *simos.OpRec) int64 {
 // world runs main as task 0 over fs with the plan's simulator settings.
 func world(p *Plan, tape *simrt.Tape, fs *simos.FS, opt RunOpt, setup func(w *simrt.World), main func()) (*simrt.World, simrt.Result) {
 	cfg := simrt.Config{
-		MaxSteps: p.Sim.MaxSteps, Strategy: p.Sim.Strategy, Trace: opt.Trace, CapturePC: opt.Trace,
+		MaxSteps: p.Sim.MaxSteps, Strategy: p.Sim.Strategy, Trace: opt.Trace, CapturePC: opt.Trace || p.Sim.SlowMod > 0,
 		NowQuantum: p.Sim.Quantum, PreemptEvery: p.Sim.PreemptEvery, PreemptNs: p.Sim.PreemptNs,
+		SlowSiteMod: p.Sim.SlowMod, SlowSiteSalt: p.Seed, SlowSiteNs: p.Sim.SlowNs, SlowSiteMax: 100, SlowSiteCoin: p.Sim.SlowCoin, JitterNs: p.Sim.JitterNs,
 	}
 	return simrt.Run(cfg, tape, func(w *simrt.World) {
 		simos.Attach(w, fs)
@@ -151,6 +152,12 @@ func finish(out *RunOut, w *simrt.World, res simrt.Result, p *Plan, viol *Violat
 	}
 	if w.Stalls > 0 {
 		out.Faults["stall"] += w.Stalls
+	}
+	if w.SiteStalls > 0 {
+		out.Faults["site-stall"] += w.SiteStalls
+	}
+	if w.Jitters > 0 {
+		out.Faults["jitter"] += w.Jitters
 	}
 	if p.Sim.Latency.Kind != "" {
 		out.Faults["latency-model-runs"]++
